@@ -134,7 +134,14 @@ func (fr *Frame) call(site ssa.Instruction, c *ssa.CallCommon, st *State) []Val 
 			}
 		case "ensures":
 			fc.note("calls of " + name + " in " + shortName(funcKey(r.fr.fn)) + " assumed to ensure: " + r.text)
-			ev := r.fr.evalCtx(st, pre).with(binds)
+			rb := map[string]TV{}
+			if sig, ok := c.Value.Type().Underlying().(*types.Signature); ok || c.IsInvoke() {
+				if c.IsInvoke() {
+					sig = c.Method.Type().(*types.Signature)
+				}
+				fr.bindResults(rb, res, sig)
+			}
+			ev := r.fr.evalCtx(st, pre).with(binds).with(rb)
 			fc.assume(st, ev.evalBool(parse(r, r.text)))
 		}
 	}
